@@ -124,6 +124,24 @@ def reparse_span(entry, node, text):
             back = parse_entry("document_ts_fragvars", span).definitions[0]
         elif isinstance(node, A.Document):
             back = parse_entry("document_ts_fragvars", span)
+        elif isinstance(node, A.VariableDefinition):
+            back = parse("query (" + span + ") { a }").definitions[0].variable_definitions[0]
+        elif isinstance(node, A.Argument):
+            back = parse("{ a(" + span + ") }").definitions[0].selection_set.selections[0].arguments[0]
+        elif isinstance(node, A.Directive):
+            back = parse("{ a " + span + " }").definitions[0].selection_set.selections[0].directives[0]
+        elif isinstance(node, A.ObjectField):
+            back = parse_value("{" + span + "}").fields[0]
+        elif isinstance(node, A.FieldDefinition):
+            back = parse_entry("document_ts", "type T { " + span + " }").definitions[0].fields[0]
+        elif isinstance(node, A.InputValueDefinition):
+            back = parse_entry("document_ts", "input T { " + span + " }").definitions[0].fields[0]
+        elif isinstance(node, A.EnumValueDefinition):
+            back = parse_entry("document_ts", "enum T { " + span + " }").definitions[0].values[0]
+        elif isinstance(node, A.OperationTypeDefinition):
+            back = parse_entry("document_ts", "schema { " + span + " }").definitions[0].operation_types[0]
+        elif isinstance(node, A.Name):
+            back = parse("{ " + span + " }").definitions[0].selection_set.selections[0].name
         else:
             return None
     except Exception:  # noqa
@@ -177,8 +195,15 @@ def _spans(src: int, gap: int, every: int, offset: int, width: int, lead: int, n
                     ok = False          # same token range, whatever the ignorable characters in between
                     break
                 r = reparse_span(entry, n, text)
-                if r is False:
-                    ok = False
+                if r is False or r is None:
+                    ok = False          # every node kind has a re-parse context; None would mean an unknown kind
+                    break
+                # children lie inside their parent
+                for child in nodes_of(n, [])[1:]:
+                    if not (n.loc[0] <= child.loc[0] and child.loc[1] <= n.loc[1]):
+                        ok = False
+                        break
+                if not ok:
                     break
     return result(ok, True)
 
